@@ -425,9 +425,14 @@ def ew_bin(op, a, b):
         if isinstance(x, Und):
             raise Unsupported(f"use of a value that depends on an undecided test ({x.desc})")
     if not isinstance(a, NDArr) and not isinstance(b, NDArr):
+        for x in (a, b):
+            if x is None or isinstance(x, (dict, Obj)) or (isinstance(x, Opaque) and x.inert):
+                raise PyRaise("TypeError", f"unsupported operand for {op}: {x!r}")
         return s_bin(op, a, b)
     for x in (a, b):
         if not isinstance(x, NDArr) and not is_num(x) and not isinstance(x, bool):
+            if x is None or isinstance(x, (dict, Obj)) or (isinstance(x, Opaque) and x.inert):
+                raise PyRaise("TypeError", f"unsupported operand for {op}: {x!r}")
             raise Unsupported(f"array {op} {type(x).__name__}")
     sa = a.shape if isinstance(a, NDArr) else ()
     sb = b.shape if isinstance(b, NDArr) else ()
@@ -562,6 +567,7 @@ class Obj:
         self.label = label
         self.attrs = dict(attrs)
         self.overrides = {}      # method name or 'Class.method' -> python callable(interp, args, kwargs)
+        self.absent = set()      # attributes the rule knows not to exist in this configuration (reading one is a genuine AttributeError)
         self.attr_log = []       # (seq, name, value)
 
     def __repr__(self):
@@ -571,8 +577,9 @@ class Obj:
 class Opaque:
     """a value the code only passes around or calls (user supplied nonlinear function, an external routine without a model)"""
 
-    def __init__(self, name):
+    def __init__(self, name, inert=False):
         self.name = name
+        self.inert = inert       # a value that supports no arithmetic (a user function, an options object)
 
     def __repr__(self):
         return f"<opaque {self.name}>"
@@ -654,9 +661,10 @@ class PyIter:
 class PyRaise(Exception):
     """a Python exception raised by the interpreted code"""
 
-    def __init__(self, name, msg=""):
+    def __init__(self, name, msg="", genuine=True):
         super().__init__(f"{name}: {msg}")
         self.name = name
+        self.genuine = genuine      # False: the exception may be an artefact of what the rule configured / the interpreter models
 
 
 class _Return(Exception):
@@ -949,7 +957,9 @@ class Interp:
                     return Bound(v, self.make_func(fn, c.module, None, c))
             if name in v.overrides:
                 return Builtin(name, v.overrides[name])
-            raise PyRaise("AttributeError", f"{v.label} has no attribute {name} (not configured by the rule)")
+            if name in v.absent or (v.cls is not None and not self._ever_assigned(v.cls, name)):
+                raise PyRaise("AttributeError", f"{v.label} has no attribute {name}")
+            raise PyRaise("AttributeError", f"{v.label} has no attribute {name} (not configured by the rule)", genuine=False)
         if isinstance(v, SuperProxy):
             if v.obj.cls is None:
                 raise Unsupported("super() without a class")
@@ -963,7 +973,7 @@ class Interp:
                 return Builtin(full, self.stubs.get(full) or self.stubs[name])
             r = v.lookup(name)
             if r is _MISSING:
-                raise PyRaise("AttributeError", f"module {v.rel} has no attribute {name}")
+                raise PyRaise("AttributeError", f"module {v.rel} has no attribute {name}", genuine=False)
             return r
         if isinstance(v, ModRef):
             return self.external(v.name + "." + name)
@@ -1008,6 +1018,20 @@ class Interp:
         if isinstance(v, Opaque):
             return Opaque(v.name + "." + name)
         raise Unsupported(f"attribute {name} of {type(v).__name__}")
+
+    def _ever_assigned(self, cls, name):
+        """is `<x>.name` assigned anywhere in the modules of the class hierarchy (or a method / class attribute of it)?"""
+        for c in cls.mro(self):
+            c.module._load()
+            for n in ast.walk(c.module.mod.tree):
+                if isinstance(n, ast.Attribute) and n.attr == name and isinstance(n.ctx, ast.Store):
+                    return True
+                if isinstance(n, ast.Call) and isinstance(n.func, ast.Name) and n.func.id == "setattr":
+                    return True
+            for st in c.node.body:
+                if isinstance(st, ast.Assign) and any(isinstance(t, ast.Name) and t.id == name for t in st.targets):
+                    return True
+        return False
 
     def setattr(self, v, name, val):
         if isinstance(v, Obj):
@@ -1350,6 +1374,9 @@ class Interp:
             return v
         if name in PY_BUILTINS:
             return PY_BUILTINS[name]
+        import builtins
+        if hasattr(builtins, name):
+            raise Unsupported(f"builtin {name} (no model)")
         raise PyRaise("NameError", f"name {name} is not defined")
 
     def eval_index(self, sl, frame):
